@@ -53,13 +53,16 @@ def _depends_on_adjacency(fn: ast.FunctionDef, name: str, depth: int = 0) -> boo
 def run(chk: Check, ctx: Any) -> None:
     repo = ctx.repo
     chk.explanation = (
-        "C13 as a whole is a completeness statement about ~1 600 lines of heuristic graph rewriting and is not decidable by static analysis; this "
-        "check decides necessary conditions only. (R1) the join search advances along the graph: the next frontier is data-dependent on an "
+        "C13 is a completeness statement about ~1 600 lines of heuristic graph rewriting; R1-R5 decide shape-independent necessary conditions, R6 the "
+        "enumerated flat programs. (R1) the join search advances along the graph: the next frontier is data-dependent on an "
         "adjacency query of the current vertex. (R2) every end marker a pass attaches (IfEnd/SwitchEnd/ForeverEnd/ForeverStart/SwitchFalltrough) is "
         "recognised by the label writer, and each block writer's check_end_block stops on the id of its own start marker. (R3) igraph edge handles "
         "are not used across a graph rewrite: a loop that rewrites edges re-fetches every edge variable its condition reads; sets of "
         "vertices/edges to delete are created per graph; the block writer asks its end-of-block callback before it validates the next vertex. "
-        "Observed but out of reach (see DESIGN.md): e.g. a switch with one case group and no default still decompiles with a jump."
+        "Shapes outside the enumerated families are not decided (DESIGN.md 9.5)."
+        " (R4/R5) typestate of jump roots across passes, stale edge ids, memo discipline. (R6, interpreter-based) compile() and convert() are evaluated on flat"
+        " programs (every single construct, every ordered pair; triples in the thorough tier): the text must be ExplorerScript without jump with every operatio"
+        "n once. R6 decides the enumerated flat shapes, not all flat programs."
     )
     chk.rule("C13-R6", "flat programs (statement sequences, if/elseif/else chains, switches with break-terminated cases; singles and ordered pairs, triples in the thorough tier) decompile - every stage interpreted - to ExplorerScript without jump, every operation printed once")
     chk.rule("C13-R1", "join search liveness: the edges followed from a vertex come from an adjacency query on that vertex")
